@@ -588,3 +588,58 @@ def r05_7(cx):
             if why:
                 break
         cx.report('R05.7', a, 'count-cap', why is None, '%s::add stops recording only at counts that build() rejects (tabulated for counts 0..6)' % nm if why is None else '%s: %s' % (nm, why))
+
+
+@only(PERF)
+def r05_8(cx):
+    """build() of the byte-set prefilters looks at every byte value: a recorded byte is either put into the finder or makes
+    build() give up. A scan over part of the byte range silently drops bytes (candidates skipped, matches missed)."""
+    from acverif.sym import loop_rows, innermost_loop, Sym
+    for nm in ('StartBytesBuilder', 'RareBytesBuilder'):
+        b = cx.body('util::prefilter::%s::build::imp' % nm)
+        loops = b.loops()
+        why = None
+        if len(loops) != 1:
+            why = '%d loops in build (expected the one scan over the byte values)' % len(loops)
+        else:
+            h = list(loops)[0]
+            # the iterator the loop draws from, on arrival
+            arr = [r for r in Sym(cx.facts, b, start=0, stop={h}).rows() if r.end == ('stop', h)]
+            nxt = [b.call_term(bi, t0) for bi, t0 in b.calls(r'Iterator::next$') if bi in loops[h]]
+            dom = None
+            if len(nxt) == 1 and arr:
+                recv = peel_all(nxt[0][2][0])
+                if recv[0] == 'v':
+                    src = arr[0].env.get(recv[2])
+                    if src is not None:
+                        s = canon(src)
+                        try:
+                            if is_agg(s, r'core::ops::Range$'):
+                                dom = (teval(s[3]['start'], lambda t: None), teval(s[3]['end'], lambda t: None) - 1)
+                            elif is_call(s, r'RangeInclusive::new$'):
+                                dom = (teval(s[2][0], lambda t: None), teval(s[2][1], lambda t: None))
+                        except (Unsupported, EvalPanic):
+                            dom = None
+            if dom != (0, 255):
+                why = 'the scan covers byte values %s (expected 0..=255)' % (dom,)
+            else:
+                B = ('f', ('dc', nxt[0], 'Some'), '0')
+                rows = [r for r in loop_rows(cx.facts, b, h) if r.cond(lambda c: c[0] == 'discr' and is_call(c[1], r'Iterator::next$')) == 1]
+                sel = lambda c: (cstr(c) == 'builder.byteset[%s]' % cstr(B)) or (is_call(canon(c), r'ByteSet::contains$|RareByteSet::contains$|contains$') and cstr(canon(c)[2][-1]) == cstr(B)) or (is_call(canon(c), r'Index::index$') and cstr(canon(c)[2][1]) == cstr(B))
+                n = 0
+                for r in rows:
+                    chosen = r.cond(sel)
+                    if chosen is None:
+                        chosen = r.cond(lambda c: 'byteset' in cstr(c) or 'rare_set' in cstr(c))
+                    stores = [(canon(p), canon(v)) for p, v in r.stores()]
+                    kept = any(cstr(v) == cstr(B) or cstr(v).endswith(cstr(B)) for p, v in stores) or any(cstr(B) in cstr(v) for l, v in r.env.items() if isinstance(v, tuple) and v[0] == 'aset')
+                    if chosen is True:
+                        n += 1
+                        gives_up = r.end == 'return' and is_agg(r.ret, r'Option$', 'None')
+                        if not (kept or gives_up or r.end == 'diverge'):
+                            why = 'a recorded byte is neither placed into the finder nor makes build() return None'
+                    elif chosen is False and kept:
+                        why = 'a byte that was not recorded is placed into the finder'
+                if n == 0:
+                    why = why or 'no iteration handles a recorded byte'
+        cx.report('R05.8', b, 'full-scan', why is None, '%s::build scans all byte values 0..=255; every recorded byte ends up in the finder or build() gives up' % nm if why is None else '%s::build: %s' % (nm, why))
